@@ -61,7 +61,9 @@ class Query:
             g = gs[0]
         else:
             g = "(%s %s)" % ("or" if self.goal_any else "and", " ".join(gs))
-        lines.append("(assert (not %s)) ; negated goal: %s" % (g, self.name))
+        if gs or not self.extra_smt:
+            lines.append("(assert (not %s)) ; negated goal: %s" % (g, self.name))
+        # an obligation with an empty goal list carries its (already negated) property in extra_smt
         lines.append("(check-sat)")
         return "\n".join(lines) + "\n", [ring.names[v] for v in vs]
 
